@@ -42,15 +42,19 @@ theorem GoodF.cond {present : Bool} {r : R} {k : St → R} {v1 v2 : Bool} {st : 
   | false => simp only [Search.cond, hn rfl, Bool.and_true]; exact h1
   | true => simp only [Search.cond, if_true]; exact GoodF.andThen h1 (fun _ => h2 rfl)
 
+/-- the value of a `Logical` -/
+def logicalVal (op : Op) (va vb : Bool) : Bool :=
+  match op with
+  | .none => true
+  | .and => va && vb
+  | .or => va || vb
+  | .xor => va != vb
+  | .not => !va
+
 theorem GoodF.logical {op : Op} {ma mb : St → R} {va vb : Bool} {st : St} {F : Prop}
     (hop : op ≠ .none) (ha : ∀ s, GoodF (ma s) va s F) (hb : op ≠ .not → ∀ s, GoodF (mb s) vb s F) :
-    GoodF (logical op ma mb st)
-      (match op with
-       | .none => true
-       | .and => va && vb
-       | .or => va || vb
-       | .xor => va != vb
-       | .not => !va) st F := by
+    GoodF (logical op ma mb st) (logicalVal op va vb) st F := by
+  unfold logicalVal
   obtain ⟨s1, e1, f1⟩ := ha st
   cases op with
   | none => exact absurd rfl hop
@@ -681,5 +685,269 @@ theorem good_rest {t : Pk.Ref.Tbl} {w : World} (hd : w.noDangling t = true) {p :
               revert hr2; rw [hn]; cases relAll.isNil <;> simp
             simp only [Bool.not_true, Bool.false_eq_true, if_false]
             exact GoodF.relMatch hd hr1 (hall hn2) bm.ref st
+
+theorem good_P_node {t : Pk.Ref.Tbl} {w : World} (hd : w.noDangling t = true) {p : PFlat} {inSet : Cons}
+    {rel : Option RFlat} {relAny relAll : Cons} {F : Prop}
+    (hin : p.attr.isEmpty = false → inSet.isNil = false →
+      ∀ b s, matchC t w inSet b s = .ok (matchesC t w inSet b, s))
+    (hF : F → p.attr.isEmpty = true)
+    (hrel : ∀ r, rel = some r →
+      (r.relation == sParent || r.relation == sChild) = true ∧ (relAny.isNil != relAll.isNil) = true)
+    (hany : relAny.isNil = false → ∀ b s, GoodF (matchC t w relAny b s) (matchesC t w relAny b) s F)
+    (hall : relAll.isNil = false → ∀ b s, GoodF (matchC t w relAll b s) (matchesC t w relAll b) s F)
+    (bm : BlobMeta) (st : St) :
+    GoodF (matchP t w (.mk p inSet rel relAny relAll) bm st) (matchesP t w (.mk p inSet rel relAny relAll) bm) st F := by
+  rw [matchP_mk, matchesP_mk]
+  cases h : bm.camliType == sPermanode with
+  | false => simp [bne, h]; exact GoodF.ok _ _ _
+  | true =>
+    simp only [bne, h, Bool.not_true, Bool.false_eq_true, if_false, Bool.true_and]
+    exact GoodF.andThen (good_attr hin hF) (fun _ _ => good_rest hd hrel hany hall)
+
+/-! ## File and directory constraints -/
+
+theorem good_parent {t : Pk.Ref.Tbl} {w : World} {parentDir : DirC} {F : Prop}
+    (hpar : parentDir.isNil = false → ∀ b s, GoodF (matchD t w parentDir b s) (matchesD t w parentDir b) s F)
+    (bm : BlobMeta) (st : St) :
+    GoodF (if parentDir.isNil then .ok (true, st)
+           else Search.anyOf w (fun b s => matchD t w parentDir b s) (w.parents bm.ref) st)
+      (parentDir.isNil || (w.parents bm.ref).any (atRef w (matchesD t w parentDir))) st F := by
+  cases hn : parentDir.isNil with
+  | true => exact GoodF.ok _ _ _
+  | false =>
+    simp only [Bool.false_eq_true, if_false, Bool.false_or]
+    exact GoodF.anyOf (hpar hn) _ st
+
+theorem good_F_node {t : Pk.Ref.Tbl} {w : World} {f : FFlat} {parentDir : DirC} {F : Prop}
+    (hpar : parentDir.isNil = false → ∀ b s, GoodF (matchD t w parentDir b s) (matchesD t w parentDir b) s F)
+    (bm : BlobMeta) (st : St) :
+    GoodF (matchF t w (.mk f parentDir) bm st) (matchesF t w (.mk f parentDir) bm) st F := by
+  rw [matchF]
+  unfold matchesF
+  cases h : bm.camliType == sFile with
+  | false => simp [bne, h]; exact GoodF.ok _ _ _
+  | true =>
+    simp only [bne, h, Bool.not_true, Bool.false_eq_true, if_false, Bool.true_and]
+    cases w.fileInfo bm.ref with
+    | none => exact GoodF.ok _ _ _
+    | some fi =>
+      simp only
+      cases hfl : (optInt f.size fi.size && optStr f.name fi.name && optStr f.mime fi.mime &&
+           optTime f.time fi.time && optTime f.modTime fi.modTime) with
+      | false => simp; exact GoodF.ok _ _ _
+      | true =>
+        simp only [Bool.not_true, Bool.false_eq_true, if_false, Bool.true_and]
+        exact GoodF.andThen (good_parent hpar bm st) (fun _ s => GoodF.ok _ _ _)
+
+theorem good_dirParent {t : Pk.Ref.Tbl} {w : World} {parentDir : DirC} {F : Prop}
+    (hpar : parentDir.isNil = false → ∀ b s, GoodF (matchD t w parentDir b s) (matchesD t w parentDir b) s F)
+    (bm : BlobMeta) (s : St) :
+    GoodF (dirParent w (if parentDir.isNil then none else some (fun b s => matchD t w parentDir b s)) bm s)
+      (parentDir.isNil || (w.parents bm.ref).any (atRef w (matchesD t w parentDir))) s F := by
+  cases hn : parentDir.isNil with
+  | true => exact GoodF.ok _ _ _
+  | false =>
+    simp only [Bool.false_eq_true, if_false, Bool.false_or, dirParent]
+    exact GoodF.anyOf (hpar hn) _ s
+
+theorem good_D_node {t : Pk.Ref.Tbl} {w : World} (hi : w.dirsHaveInfo = true) {d : DFlat} {parentDir : DirC}
+    {rc cc : Cons} {F : Prop}
+    (hpar : parentDir.isNil = false → ∀ b s, GoodF (matchD t w parentDir b s) (matchesD t w parentDir b) s F)
+    (hcc : cc.isNil = false → ∀ b s, GoodF (matchC t w cc b s) (matchesC t w cc b) s F)
+    (hrc : rc.isNil = false → ∀ b s, GoodF (matchC t w rc b s) (matchesC t w rc b) s F)
+    (hsh1 : containsShape rc = true) (hsh2 : containsShape cc = true)
+    (hsafe : (!(cc.isNil && !rc.isNil) ||
+      (d.name.isNone && d.pfx.isEmpty && parentDir.isNil && d.topFileCount.isNone)) = true)
+    (bm : BlobMeta) (st : St) :
+    GoodF (matchD t w (.mk d parentDir rc cc) bm st) (matchesD t w (.mk d parentDir rc cc) bm) st F := by
+  cases cc with
+  | mk op a b f pn fl dr =>
+    simp only [matchD]
+    rw [ccMatcher_eq t w hsh2]
+    refine (GoodF.dirBody_succ (good_dirParent hpar bm)
+      (fun s => GoodF.dirTail_some (σ := fun _ => false) (hcc rfl) (by intro h; cases h)) st).congr ?_
+    unfold matchesD
+    cases w.fileInfo bm.ref with
+    | none => rfl
+    | some fi =>
+      simp only [Bool.false_and, Bool.or_false, Bool.and_assoc, Cons.isNil, Bool.not_false, if_true]
+      rfl
+  | nil =>
+    cases rc with
+    | mk op a b f pn fl dr =>
+      simp only [Cons.isNil, Bool.not_false, Bool.and_true, Bool.not_true, Bool.false_or, Bool.and_eq_true,
+        Option.isNone_iff_eq_none] at hsafe
+      obtain ⟨⟨⟨hname, hpfx⟩, hpn⟩, htfc⟩ := hsafe
+      simp only [matchD, hpn, if_true]
+      rw [ccMatcher_eq t w hsh1]
+      refine (GoodF.dirBody_rec hi hname hpfx htfc (hrc rfl) _ bm st).congr ?_
+      unfold matchesD
+      cases w.fileInfo bm.ref with
+      | none => simp
+      | some fi => simp [hname, hpfx, hpn, htfc, optStr, optInt, Cons.isNil]
+    | nil =>
+      simp only [matchD]
+      refine (GoodF.dirBody_succ (good_dirParent hpar bm) (fun s => GoodF.dirTail_none) st).congr ?_
+      unfold matchesD
+      cases w.fileInfo bm.ref with
+      | none => rfl
+      | some fi =>
+        simp only [Bool.and_assoc, Cons.isNil, Bool.not_true, Bool.false_eq_true, if_false, Bool.and_true]
+        rfl
+
+/-! ## Constraints -/
+
+theorem good_C_node {t : Pk.Ref.Tbl} {w : World} {op : Op} {a b : Cons} {f : Flat} {pn : Perm} {fl : FileC}
+    {dr : DirC} {F : Prop}
+    (hv : (op == .none || (!a.isNil && (op == .not || !b.isNil))) = true)
+    (ha : a.isNil = false → ∀ bm s, GoodF (matchC t w a bm s) (matchesC t w a bm) s F)
+    (hb : b.isNil = false → ∀ bm s, GoodF (matchC t w b bm s) (matchesC t w b bm) s F)
+    (hpn : pn.isNil = false → ∀ bm s, GoodF (matchP t w pn bm s) (matchesP t w pn bm) s F)
+    (hfl : fl.isNil = false → ∀ bm s, GoodF (matchF t w fl bm s) (matchesF t w fl bm) s F)
+    (hdr : dr.isNil = false → ∀ bm s, GoodF (matchD t w dr bm s) (matchesD t w dr bm) s F)
+    (bm : BlobMeta) (st : St) :
+    GoodF (matchC t w (.mk op a b f pn fl dr) bm st) (matchesC t w (.mk op a b f pn fl dr) bm) st F := by
+  simp only [matchC, matchesC]
+  cases hnz : (op != .none || f.anything || !f.camliType.isEmpty || f.anyCamliType || !pn.isNil || !fl.isNil ||
+      !dr.isNil || f.blobSize.isSome || !f.pfx.isEmpty) with
+  | false => simp; exact GoodF.ok _ _ _
+  | true =>
+    simp only [Bool.not_true, Bool.false_eq_true, if_false]
+    refine GoodF.cond (GoodF.cond (GoodF.cond (GoodF.cond (GoodF.cond (GoodF.cond (GoodF.cond (GoodF.cond
+      (GoodF.ok _ _ _) ?_ ?_) ?_ ?_) ?_ ?_) ?_ ?_) ?_ ?_) ?_ ?_) ?_ ?_) ?_ ?_
+    · intro h; cases op <;> simp_all
+    · intro hop s
+      have hop' : op ≠ .none := by intro h; subst h; simp at hop
+      have hop2 : (op == Op.none) = false := by cases op <;> simp_all
+      rw [hop2, Bool.false_or, Bool.and_eq_true] at hv
+      have han : a.isNil = false := by simpa using hv.1
+      refine (GoodF.logical hop' (ha han bm) (fun hnot => hb ?_ bm)).congr (by cases op <;> rfl)
+      have : (op == Op.not) = false := by cases op <;> simp_all
+      simpa [this] using hv.2
+    · intro h; simp_all
+    · intro h s; exact (GoodF.ok _ _ _).congr (by simp_all)
+    · intro h; simp_all
+    · intro h s; exact (GoodF.ok _ _ _).congr (by simp_all)
+    · intro h; simp_all
+    · intro h s; exact (hpn (by simpa using h) bm s).congr (by simp_all)
+    · intro h; simp_all
+    · intro h s; exact (hfl (by simpa using h) bm s).congr (by simp_all)
+    · intro h; simp_all
+    · intro h s; exact (hdr (by simpa using h) bm s).congr (by simp_all)
+    · intro h; simp_all
+    · intro h s; exact (GoodF.ok _ _ _).congr (by simp_all)
+    · intro h; simp_all
+    · intro h s; exact (GoodF.ok _ _ _).congr (by simp_all)
+
+/-! ## The guards, and the induction over the constraint tree -/
+
+/-- the three guards on a subtree, and `F` implies that it asks for no attribute values -/
+structure G (F : Prop) (all : NodePred → Bool) : Prop where
+  dv : all deepValidPred = true
+  ss : all scratchSafePred = true
+  ds : all dirSafePred = true
+  fr : F → all noAttrPred = true
+
+theorem G.mono {F : Prop} {all all' : NodePred → Bool} (g : G F all) (h : ∀ φ, all φ = true → all' φ = true) :
+    G F all' :=
+  ⟨h _ g.dv, h _ g.ss, h _ g.ds, fun hF => h _ (g.fr hF)⟩
+
+theorem allC_mk {φ : NodePred} {op : Op} {a b : Cons} {f : Flat} {pn : Perm} {fl : FileC} {dr : DirC}
+    (h : allC φ (.mk op a b f pn fl dr) = true) :
+    φ.c op a b f pn fl dr = true ∧ allC φ a = true ∧ allC φ b = true ∧ allP φ pn = true ∧
+      allF φ fl = true ∧ allD φ dr = true := by
+  simp only [allC, Bool.and_eq_true] at h
+  exact ⟨h.1.1.1.1.1, h.1.1.1.1.2, h.1.1.1.2, h.1.1.2, h.1.2, h.2⟩
+
+theorem allP_mk {φ : NodePred} {p : PFlat} {inSet : Cons} {rel : Option RFlat} {relAny relAll : Cons}
+    (h : allP φ (.mk p inSet rel relAny relAll) = true) :
+    φ.p p inSet rel relAny relAll = true ∧ allC φ inSet = true ∧ allC φ relAny = true ∧ allC φ relAll = true := by
+  simp only [allP, Bool.and_eq_true] at h
+  exact ⟨h.1.1.1, h.1.1.2, h.1.2, h.2⟩
+
+theorem allF_mk {φ : NodePred} {f : FFlat} {parentDir : DirC} (h : allF φ (.mk f parentDir) = true) :
+    allD φ parentDir = true := by
+  simpa only [allF] using h
+
+theorem allD_mk {φ : NodePred} {d : DFlat} {parentDir : DirC} {rc cc : Cons}
+    (h : allD φ (.mk d parentDir rc cc) = true) :
+    φ.d d parentDir rc cc = true ∧ allD φ parentDir = true ∧ allC φ rc = true ∧ allC φ cc = true := by
+  simp only [allD, Bool.and_eq_true] at h
+  exact ⟨h.1.1.1, h.1.1.2, h.1.2, h.2⟩
+
+mutual
+theorem good_C (t : Pk.Ref.Tbl) (w : World) (hd : w.noDangling t = true) (hi : w.dirsHaveInfo = true) :
+    ∀ (c : Cons) (F : Prop), c.isNil = false → G F (fun φ => allC φ c) →
+      ∀ bm st, GoodF (matchC t w c bm st) (matchesC t w c bm) st F
+  | .nil, _, h, _, _, _ => by simp [Cons.isNil] at h
+  | .mk op a b f pn fl dr, F, _, g, bm, st => by
+    have ga : G F (fun φ => allC φ a) := g.mono (fun _ h => (allC_mk h).2.1)
+    have gb : G F (fun φ => allC φ b) := g.mono (fun _ h => (allC_mk h).2.2.1)
+    have gp : G F (fun φ => allP φ pn) := g.mono (fun _ h => (allC_mk h).2.2.2.1)
+    have gf : G F (fun φ => allF φ fl) := g.mono (fun _ h => (allC_mk h).2.2.2.2.1)
+    have gd : G F (fun φ => allD φ dr) := g.mono (fun _ h => (allC_mk h).2.2.2.2.2)
+    exact good_C_node (allC_mk g.dv).1
+      (fun hn => good_C t w hd hi a F hn ga) (fun hn => good_C t w hd hi b F hn gb)
+      (fun hn => good_P t w hd hi pn F hn gp) (fun hn => good_F t w hd hi fl F hn gf)
+      (fun hn => good_D t w hd hi dr F hn gd) bm st
+theorem good_P (t : Pk.Ref.Tbl) (w : World) (hd : w.noDangling t = true) (hi : w.dirsHaveInfo = true) :
+    ∀ (pn : Perm) (F : Prop), pn.isNil = false → G F (fun φ => allP φ pn) →
+      ∀ bm st, GoodF (matchP t w pn bm st) (matchesP t w pn bm) st F
+  | .nil, _, h, _, _, _ => by simp [Perm.isNil] at h
+  | .mk p inSet rel relAny relAll, F, _, g, bm, st => by
+    have gin : G F (fun φ => allC φ inSet) := g.mono (fun _ h => (allP_mk h).2.1)
+    have gany : G F (fun φ => allC φ relAny) := g.mono (fun _ h => (allP_mk h).2.2.1)
+    have gall : G F (fun φ => allC φ relAll) := g.mono (fun _ h => (allP_mk h).2.2.2)
+    have hin : p.attr.isEmpty = false → inSet.isNil = false →
+        ∀ b s, matchC t w inSet b s = .ok (matchesC t w inSet b, s) := by
+      intro hattr hn b s
+      have hna : allC noAttrPred inSet = true := by
+        have := (allP_mk g.ss).1
+        simpa [scratchSafePred, hattr, noAttr] using this
+      obtain ⟨s', e, f⟩ := good_C t w hd hi inSet True hn ⟨gin.dv, gin.ss, gin.ds, fun _ => hna⟩ b s
+      rw [e, f trivial]
+    have hF : F → p.attr.isEmpty = true := fun h => by
+      have := (allP_mk (g.fr h)).1
+      simpa [noAttrPred] using this
+    have hrel : ∀ r, rel = some r →
+        (r.relation == sParent || r.relation == sChild) = true ∧ (relAny.isNil != relAll.isNil) = true := by
+      intro r hr
+      have := (allP_mk g.dv).1
+      subst hr
+      simpa [deepValidPred] using this
+    exact good_P_node hd hin hF hrel (fun hn => good_C t w hd hi relAny F hn gany)
+      (fun hn => good_C t w hd hi relAll F hn gall) bm st
+theorem good_F (t : Pk.Ref.Tbl) (w : World) (hd : w.noDangling t = true) (hi : w.dirsHaveInfo = true) :
+    ∀ (fl : FileC) (F : Prop), fl.isNil = false → G F (fun φ => allF φ fl) →
+      ∀ bm st, GoodF (matchF t w fl bm st) (matchesF t w fl bm) st F
+  | .nil, _, h, _, _, _ => by simp [FileC.isNil] at h
+  | .mk f parentDir, F, _, g, bm, st => by
+    have gp : G F (fun φ => allD φ parentDir) := g.mono (fun _ h => allF_mk h)
+    exact good_F_node (fun hn => good_D t w hd hi parentDir F hn gp) bm st
+theorem good_D (t : Pk.Ref.Tbl) (w : World) (hd : w.noDangling t = true) (hi : w.dirsHaveInfo = true) :
+    ∀ (dr : DirC) (F : Prop), dr.isNil = false → G F (fun φ => allD φ dr) →
+      ∀ bm st, GoodF (matchD t w dr bm st) (matchesD t w dr bm) st F
+  | .nil, _, h, _, _, _ => by simp [DirC.isNil] at h
+  | .mk d parentDir rc cc, F, _, g, bm, st => by
+    have gp : G F (fun φ => allD φ parentDir) := g.mono (fun _ h => (allD_mk h).2.1)
+    have grc : G F (fun φ => allC φ rc) := g.mono (fun _ h => (allD_mk h).2.2.1)
+    have gcc : G F (fun φ => allC φ cc) := g.mono (fun _ h => (allD_mk h).2.2.2)
+    have hnode := (allD_mk g.ds).1
+    simp only [dirSafePred, Bool.and_eq_true] at hnode
+    exact good_D_node hi (fun hn => good_D t w hd hi parentDir F hn gp)
+      (fun hn => good_C t w hd hi cc F hn gcc) (fun hn => good_C t w hd hi rc F hn grc)
+      hnode.1.1 hnode.1.2 hnode.2 bm st
+end
+
+/-- **C08 matcher theorem**: under the guards the compiled matcher never fails and computes the
+documented meaning of the constraint on every blob, whatever the scratch state -/
+theorem matcher_ok (t : Pk.Ref.Tbl) (w : World)
+    (hd : w.noDangling t = true) (hi : w.dirsHaveInfo = true)
+    (c : Cons) (hn : c.isNil = false)
+    (hv : deepValid c = true) (hs : scratchSafe c = true) (hds : dirSafe c = true) :
+    MatcherOK t w c := by
+  intro b st
+  obtain ⟨st', e, _⟩ := good_C t w hd hi c False hn ⟨hv, hs, hds, fun h => h.elim⟩ b st
+  exact ⟨st', e⟩
 
 end Pk.Search
